@@ -182,6 +182,9 @@ class Index(object):
 
     def reopen(self):
         self.traph.close()
+        # the closed object stays referenced, as it does in a caller's variable: dropping it would let the garbage
+        # collector close (and flush) handles that close() left open
+        self.__dict__.setdefault("_closed_objects", []).append(self.traph)
         self.traph = None
         self.open(False, dict(self.rules))
 
@@ -260,11 +263,14 @@ class Index(object):
             if kind == "recreate":
                 # close, then construct again on the SAME (populated) folder with overwrite=True and the current rules
                 self.traph.close()
+                self.__dict__.setdefault("_closed_objects", []).append(self.traph)
                 self.traph = None
                 self.open(True, dict(self.rules))
                 return Outcome("ok")
             if kind == "clear":
                 rules = {a: n for a, n in op[2]}
+                if len(op) > 3 and op[3]:
+                    t.close()
                 t.clear(RULES[op[1]], {a: RULES[n] for a, n in rules.items()})
                 self.default_rule = op[1]
                 self.rules = {B(a): n for a, n in rules.items()}
